@@ -100,6 +100,25 @@ pub fn run_client(ctx: &Ctx, proto: Proto, key: Option<(&[u8], KeyEnc)>, mode: M
         Mode::Verbose => args.push("-v".into()),
         Mode::Plain => {}
     }
+    // the options that do not change what is printed on stdout: message dump on stderr,
+    // requests / responses copied to files
+    if extra.contains(&"dump") {
+        args.push("-d".into());
+    }
+    let outfiles = if extra.contains(&"outfiles") {
+        static CTR: std::sync::atomic::AtomicU64 = std::sync::atomic::AtomicU64::new(0);
+        let c = CTR.fetch_add(1, std::sync::atomic::Ordering::Relaxed);
+        std::fs::create_dir_all(&ctx.scratch).ok();
+        let a = ctx.scratch.join(format!("client-req-{}-{}", ctx.shard, c));
+        let b = ctx.scratch.join(format!("client-resp-{}-{}", ctx.shard, c));
+        args.push("-o".into());
+        args.push(a.display().to_string());
+        args.push("-O".into());
+        args.push(b.display().to_string());
+        Some((a, b))
+    } else {
+        None
+    };
     let mut cmd = crate::procs::wrapped("RTVERIF_WRAP_CLIENT", &ctx.bins.join("roughenough-client"));
     cmd.args(&args).stdin(Stdio::null()).stdout(Stdio::piped()).stderr(Stdio::piped()).env("TZ", tz.unwrap_or("UTC"));
     let mut child = cmd.spawn().map_err(|e| format!("spawn client: {}", e))?;
@@ -158,6 +177,11 @@ pub fn run_client(ctx: &Ctx, proto: Proto, key: Option<(&[u8], KeyEnc)>, mode: M
     let stdout = h1.join().unwrap_or_default();
     let stderr = h2.join().unwrap_or_default();
     let times = parse_times(&stdout, &stderr, mode);
+    if let Some((a, b)) = outfiles {
+        // (information only: no property speaks about these files)
+        let _ = std::fs::remove_file(a);
+        let _ = std::fs::remove_file(b);
+    }
     Ok(ClientRun { requests, exit, stdout, stderr, times, watchdog, responses, args })
 }
 
@@ -598,7 +622,16 @@ pub fn run_c01(ctx: &Ctx, out: &mut Out) {
         let mut authentic_forged: Option<Result<(), String>> = None;
         let mut rr = Rng::new(rng.next_u64());
         let mut honest_out: Vec<Vec<u8>> = Vec::new();
-        let res = run_client(ctx, proto, Some((&pk, enc)), mode, n, &[], &mut |cr| {
+        let mut extra: Vec<&str> = Vec::new();
+        if rng.chance(1, 5) {
+            extra.push("dump");
+            out.obs("runs_with_dump_option", 1);
+        }
+        if rng.chance(1, 5) {
+            extra.push("outfiles");
+            out.obs("runs_with_output_files", 1);
+        }
+        let res = run_client(ctx, proto, Some((&pk, enc)), mode, n, &extra, &mut |cr| {
             let b = batch_for(&mut rr, proto);
             if cr.index == forged_at {
                 if let Some((d, detail)) = forger.forge(f, cr, &b, &mut rr) {
@@ -822,6 +855,14 @@ pub fn run_c03(ctx: &Ctx, out: &mut Out) {
         }
         if wall {
             extra.push("wall");
+        }
+        if rng.chance(1, 5) {
+            extra.push("dump");
+            out.obs("runs_with_dump_option", 1);
+        }
+        if rng.chance(1, 5) {
+            extra.push("outfiles");
+            out.obs("runs_with_output_files", 1);
         }
         let res = run_client(ctx, proto, key, mode, n, &extra, &mut |cr| {
             let d = forger.honest(cr, &batches[cr.index], &mut rr).assemble();
